@@ -1,4 +1,5 @@
 import hashlib
+import threading
 from functools import partial  # noqa: F401
 
 from pyab_experiment.binning.binning import deterministic_choice  # noqa: F401
@@ -36,6 +37,10 @@ class ExperimentEvaluator:
     _checksum: str = ""
 
     def __init__(self, source_code: str) -> None:
+        # recompilations of one evaluator are serialised: comparing the checksum,
+        # compiling and publishing function + checksum must not interleave with
+        # another recompile, or the two can end up belonging to different sources
+        self._recompile_lock = threading.Lock()
         self.recompile(source_code)
 
     def recompile(self, source_code: str) -> None:
@@ -56,31 +61,32 @@ class ExperimentEvaluator:
         """
         new_checksum = hashlib.md5(source_code.encode("utf-8")).hexdigest()
 
-        # only trigger a recompile on code that has changed
-        if self._checksum != new_checksum:
-            code_holder = {}
+        with self._recompile_lock:
+            # only trigger a recompile on code that has changed
+            if self._checksum != new_checksum:
+                code_holder = {}
 
-            ast = parse_source(source_code)
-            if ast is None:
-                raise ParseError()
-            fn_name = ast.id
-            exec(
-                compile(
-                    PythonCodeGen(
-                        ast, expose_experiment_variant_function=False
-                    ).generate(),
-                    "<string>",
-                    "exec",
-                ),
-                None,
-                code_holder,
-            )
-            setattr(
-                self, "run_experiment", code_holder[fn_name]
-            )  # initialize the function
-            # remember the checksum only once the new code is in place, so that
-            # a failed compilation is retried instead of being taken for done
-            self._checksum = new_checksum
+                ast = parse_source(source_code)
+                if ast is None:
+                    raise ParseError()
+                fn_name = ast.id
+                exec(
+                    compile(
+                        PythonCodeGen(
+                            ast, expose_experiment_variant_function=False
+                        ).generate(),
+                        "<string>",
+                        "exec",
+                    ),
+                    None,
+                    code_holder,
+                )
+                setattr(
+                    self, "run_experiment", code_holder[fn_name]
+                )  # initialize the function
+                # remember the checksum only once the new code is in place, so that
+                # a failed compilation is retried instead of being taken for done
+                self._checksum = new_checksum
 
     def run_experiment(self, **kwargs):
         raise RuntimeError("Code was not loaded")
